@@ -363,6 +363,8 @@ type v03GeckoCase struct {
 	minPkt  int
 	maxPkt  int
 	shape   string
+	bigSrc  []int // sources of complete well-formed messages with large totals
+	bigLen  []int // their reassembled sizes
 }
 
 func (c *v03GeckoCase) render() string {
@@ -419,6 +421,22 @@ func v03RunGecko(c *v03GeckoCase) (classes []string, err error) {
 	if len(got) > 2 {
 		classes = append(classes, "hostile-delivered")
 	}
+	for i, src := range c.bigSrc {
+		want := min(c.bigLen[i], c.bufSize)
+		cl := "complete:not-delivered"
+		for _, g := range got {
+			if g.from == v03Src(src).String() && len(g.data) == want {
+				cl = "complete:delivered<=2048"
+				if c.bigLen[i] > 2048 {
+					cl = "complete:delivered>2048"
+				}
+				if c.bigLen[i] > 8192 {
+					cl = "complete:delivered>8192"
+				}
+			}
+		}
+		classes = append(classes, cl)
+	}
 	classes = append(classes, "shape:"+c.shape)
 	return classes, nil
 }
@@ -446,6 +464,45 @@ func v03GenGeckoCase(rt *rapid.T) *v03GeckoCase {
 			add(1, v03GeckoFrame(0x80, byte(i), 0, 2, 0, 0, []byte{byte(i)}), fmt.Sprintf("first chunk of 2, msg %d", i), i)
 		}
 	}
+	addComplete := func(k int) {
+		// a complete, well-formed message: 2..8 chunks, each as big as a datagram can carry
+		// (2048-byte read buffers: 2048 - 8 salt - 5 header = 2035 payload bytes), any arrival order
+		chunks := rapid.IntRange(2, 8).Draw(rt, "bigChunks")
+		src := 500 + k
+		total := 0
+		type ch struct {
+			idx, size, pad int
+		}
+		var cs []ch
+		for i := 0; i < chunks; i++ {
+			size := rapid.SampledFrom([]int{2035, 2035, 1100, 1100, 1195, 700, 683, 256, 1, 0}).Draw(rt, "bigSize")
+			pad := 0
+			if size < 2000 && rapid.Bool().Draw(rt, "bigPadded") {
+				pad = rapid.IntRange(0, min(2035-size, 600)).Draw(rt, "bigPad")
+			}
+			cs = append(cs, ch{i, size, pad})
+			total += size
+		}
+		cs = rapid.Permutation(cs).Draw(rt, "bigOrder")
+		for _, x := range cs {
+			add(src, v03GeckoFrame(0x80, byte(90+k), byte(x.idx), byte(chunks), uint16(x.pad), x.pad, v03Fill(x.size, byte(x.idx))),
+				fmt.Sprintf("complete msg %d: chunk %d/%d payload=%d pad=%d (total %d)", k, x.idx, chunks, x.size, x.pad, total), 7000+k*16+x.idx)
+		}
+		c.bigSrc = append(c.bigSrc, src)
+		c.bigLen = append(c.bigLen, total)
+	}
+	nBig := rapid.SampledFrom([]int{0, 1, 1, 2}).Draw(rt, "nBig")
+	if nBig > 0 && rapid.Bool().Draw(rt, "bigFirst") {
+		for k := 0; k < nBig; k++ {
+			addComplete(k)
+		}
+		nBig = 0
+	}
+	defer func() {
+		for k := 0; k < nBig; k++ {
+			addComplete(10 + k)
+		}
+	}()
 	n := rapid.IntRange(1, 40).Draw(rt, "n")
 	for i := 0; i < n; i++ {
 		src := rapid.IntRange(0, 3).Draw(rt, "src")
@@ -523,16 +580,24 @@ func FuzzVerifC03_GeckoStream(f *testing.F) {
 	f.Add(append(fr(1, v03GeckoFrame(0x80, 1, 1, 2, 3, 3, nil)), fr(2, v03GeckoFrame(0x80, 1, 1, 2, 0, 0, []byte("cd")))...))
 	f.Add(fr(0, []byte{0x40, 1, 2, 3}))
 	f.Add(fr(0, v03GeckoFrame(0x80, 9, 7, 8, 0xffff, 2, nil)))
+	big := func(idx, total byte) []byte { return fr(0xf1, v03GeckoFrame(0x80, 5, idx, total, 0, 0, []byte("x"))) } // source 1, +2040 filler
+	f.Add(append(append(big(0, 3), big(2, 3)...), big(1, 3)...))
+	f.Add(append(append(append(big(0, 8), big(1, 8)...), big(2, 8)...), big(3, 8)...))
 	f.Fuzz(func(t *testing.T, data []byte) {
 		c := &v03GeckoCase{bufSize: 1452, shape: "fuzz"}
 		for i := 0; len(data) >= 2 && i < 64; i++ {
 			n, src := int(data[0]), int(data[1])%6
+			stretch := int(data[1]) >> 4 // the frame is extended by stretch*136 filler bytes (up to a full datagram)
 			data = data[2:]
 			if n > len(data) {
 				n = len(data)
 			}
-			c.script = append(c.script, v03Pkt{v03Src(src), v03Salamander(v03PSK, [8]byte{byte(i)}, data[:n])})
-			c.plain = append(c.plain, "plaintext "+v03Hex(data[:n]))
+			frame := append(append([]byte(nil), data[:n]...), v03Fill(stretch*136, byte(i))...)
+			if len(frame) > 2040 {
+				frame = frame[:2040]
+			}
+			c.script = append(c.script, v03Pkt{v03Src(src), v03Salamander(v03PSK, [8]byte{byte(i)}, frame)})
+			c.plain = append(c.plain, fmt.Sprintf("plaintext %s (+%d filler)", v03Hex(data[:n]), len(frame)-n))
 			data = data[n:]
 		}
 		if _, err := v03RunGecko(c); err != nil {
